@@ -324,7 +324,7 @@ func (l *ArrayListOfValue) SetAt(index int, val Value) {
 }
 
 func (l *ArrayListOfValue) SetAtVal(index int, val Value) Value {
-	l.SetAtVal(index, val)
+	l.SetAt(index, val)
 	return Undefined
 }
 
